@@ -25,17 +25,17 @@ WORKERS = 16
 RUN_WATCHDOG_S = 300
 
 TIERS = {
-    # runs, fraction of long runs
-    'quick': {'runs': 4000, 'long_every': 0},
-    'thorough': {'runs': 400000, 'long_every': 10},
+    # runs per tier; every long_every-th run of the thorough tier is a long history (60-120 steps)
+    'quick': {'runs': 30000, 'long_every': 0},
+    'thorough': {'runs': 1500000, 'long_every': 10},
 }
 RUNS_OVERRIDE = {
-    # heavier oracles get fewer runs per tier so that wall time stays comparable
-    'C09': {'quick': 1600, 'thorough': 120000},
-    'C13': {'quick': 2500, 'thorough': 200000},
-    'C05': {'quick': 2500, 'thorough': 200000},
-    'C01': {'quick': 3000, 'thorough': 250000},
-    'C15': {'quick': 3000, 'thorough': 250000},
+    # heavier oracles get fewer runs per tier so that wall time stays comparable (quick: well under a minute
+    # on 16 cores; thorough: 10-25 minutes)
+    'C05': {'quick': 12000, 'thorough': 400000},
+    'C01': {'quick': 20000, 'thorough': 800000},
+    'C09': {'quick': 15000, 'thorough': 600000},
+    'C13': {'quick': 20000, 'thorough': 1000000},
 }
 
 
